@@ -1,5 +1,6 @@
 import NfcVerif.Model.Snep
 import NfcVerif.Model.Handover
+import NfcVerif.Model.SnepSched
 open NfcVerif NfcVerif.Chan
 
 /-! line protocol of the C06 model driver
@@ -8,6 +9,14 @@ open NfcVerif NfcVerif.Chan
   `op = p/<hex>/<valid 0|1>/<code>` or `g/<hex>/<valid>/c<code>` or `g/<hex>/<valid>/d<hex>`
 * `ho <cmiu> <smiu> <reset 0|1> <req hex>/<resp hex> ...`
 * `ndefc <hex>`, `chunks <miu> <hex>`
+* `encmsg <rec>...` with `rec = <tnf>/<sr 0|1>/<type hex>/<id hex or ~>/<payload hex>`
+* `rawsrv <smiu> <maxacc> <close 0|1> <put code> <get c<code>|d<hex>> <valid table hex:0|1,..> <msg hex>,...`
+  the real server against an arbitrary peer; `rawcli <cmiu> <cacc> <p|g> <octets hex> <msg hex>,...`
+  one client request against whatever the peer has queued; `horaw <smiu> <reset> <handler table req=rsp,..> <complete table> <msgs>`
+* `wsnep <rwS> <rwC> <mode 0|1|2> <events> <snep arguments>` / `who <rwS> <rwC> <mode> <events> <ho arguments>`:
+  the same scenario on the windowed link, driven by the event string (x a r = transmit to /
+  acknowledge by / application of the server, X A R the same for the client, o = the client
+  application starts its next request); prints the state of the touched direction after every event
 -/
 
 def hexList (l : List Bytes) : String :=
@@ -88,6 +97,126 @@ def runHo (cmiu smiu : Nat) (reset : Bool) (reqs : List (Bytes × Bytes)) : Stri
   let (n, res) := go Handover.init reqs []
   s!"c2s={hexList n.logC} s2c={hexList n.logS} dl={hexList n.dl} res={",".intercalate res}"
 
+
+/-! ### records, one-sided runs, windowed link -/
+
+def parseRec (s : String) : Option Handover.Rec :=
+  match s.splitOn "/" with
+  | [t, sr, ty, i, pl] =>
+    match t.toNat?, parseHex ty, parseHex pl with
+    | some tnf, some typ, some payload =>
+      if i == "~" then some { tnf, sr := sr == "1", typ, id := none, payload }
+      else (parseHex i).map fun idb => { tnf, sr := sr == "1", typ, id := some idb, payload }
+    | _, _, _ => none
+  | _ => none
+
+def parseList (s : String) : Option (List Bytes) :=
+  if s == "." then some [] else (s.splitOn ",").mapM parseHex
+
+/-- `hex:0|1,...` -> lookup (absent = false) -/
+def parseTable (s : String) : Option (List (Bytes × Bool)) :=
+  if s == "." then some []
+  else (s.splitOn ",").mapM fun e =>
+    match e.splitOn ":" with
+    | [h, v] => (parseHex h).map fun b => (b, v == "1")
+    | _ => none
+
+def lookupT (t : List (Bytes × Bool)) (b : Bytes) : Bool :=
+  match t.find? (fun e => e.1 == b) with
+  | some e => e.2
+  | none => false
+
+def runRawSrv (smiu maxacc : Nat) (close : Bool) (putc : Nat) (getr : Nat ⊕ Bytes) (tbl : List (Bytes × Bool))
+    (msgs : List Bytes) : String :=
+  let cfg : Snep.SCfg := { maxAcc := min maxacc 0xFFFFFFFF, smiu, h := { valid := lookupT tbl, put := fun _ => putc, get := fun _ => getr } }
+  let r := Snep.srvFeed cfg .idle msgs
+  let fin := if close then Snep.srvOnClose cfg r.1 else (r.1, [])
+  s!"s2c={hexList r.2.1} dl={showDl (r.2.2 ++ fin.2)} sst={showSState fin.1}"
+
+def runRawCli (cmiu cacc : Nat) (op : Snep.Op) (octets : Bytes) (script : List Bytes) : String :=
+  let r := Snep.cliAlone { miu := cmiu, acc := cacc } op octets script
+  s!"c2s={hexList r.2.1} res={showRes r.1} left={hexList r.2.2}"
+
+/-- `reqhex=rsphex,...` -> lookup (absent = empty response) -/
+def parseHTable (s : String) : Option (List (Bytes × Bytes)) :=
+  if s == "." then some []
+  else (s.splitOn ",").mapM fun e =>
+    match e.splitOn "=" with
+    | [a, b] => match parseHex a, parseHex b with
+      | some x, some y => some (x, y)
+      | _, _ => none
+    | _ => none
+
+def lookupH (t : List (Bytes × Bytes)) (b : Bytes) : Bytes :=
+  match t.find? (fun e => e.1 == b) with
+  | some e => e.2
+  | none => []
+
+def runHoRaw (smiu : Nat) (reset : Bool) (ht : List (Bytes × Bytes)) (tbl : List (Bytes × Bool)) (msgs : List Bytes) : String :=
+  let cfg : Handover.HCfg := { smiu, complete := lookupT tbl, handler := lookupH ht, reset }
+  let r := Handover.srvFeed cfg (.collecting []) msgs
+  s!"s2c={hexList r.2.1} dl={hexList r.2.2}"
+
+def showDir (d : Dir) : String := s!"{d.inq.length}:{d.confs}:{d.acked % 16}:{d.vs % 16}:{d.lost.length}"
+
+def evStep (c : Char) : Option WStep :=
+  match c with
+  | 'x' => some (.xmit .srv) | 'a' => some (.ack .srv) | 'r' => some (.app .srv)
+  | 'X' => some (.xmit .cli) | 'A' => some (.ack .cli) | 'R' => some (.app .cli)
+  | _ => none
+
+def modeOf (s : String) : AckMode := if s == "1" then .onReceipt else if s == "2" then .allReceived else .onConsume
+
+/-- run the events up to the next `o`, collecting the state of the touched direction after each -/
+def runEvents {C S D : Type} (p : Proto C S D) (k : Win) : List Char → WNet C S D → List String →
+    WNet C S D × List String × List Char
+  | [], w, acc => (w, acc, [])
+  | c :: cs, w, acc =>
+    if c == 'o' then (w, acc, cs)
+    else if c == '-' then runEvents p k cs w acc
+    else match evStep c with
+      | none => (w, acc ++ ["?"], [])
+      | some s =>
+        let w' := wstep p k s w
+        let d := if c.isLower then w'.c2s else w'.s2c
+        runEvents p k cs w' (acc ++ [s!"{c}{showDir d}"])
+
+def runWSnep (rwS rwC : Nat) (mode : AckMode) (events : List Char) (cmiu cacc smiu maxacc : Nat) (ops : List SOp) : String :=
+  let cc : Snep.CCfg := { miu := cmiu, acc := cacc }
+  let k : Win := { rwS, rwC, mode }
+  let rec go (w : WNet Snep.CState Snep.SState (Snep.Op × Bytes)) (ev : List Char) (ops : List SOp) (res : List String)
+      (tr : List String) : WNet Snep.CState Snep.SState (Snep.Op × Bytes) × List String × List String :=
+    match ops with
+    | [] => (w, res.reverse, tr)
+    | o :: rest =>
+      let cfg : Snep.SCfg := { maxAcc := min maxacc 0xFFFFFFFF, smiu := smiu, h := o.h }
+      let s := Snep.cliStart cc.miu cc.acc o.op o.octets
+      let w0 := { w with cst := s.1, c2s := { w.c2s with out := w.c2s.out ++ s.2 }, logC := w.logC ++ s.2 }
+      let r := runEvents (Snep.proto cfg) k ev w0 []
+      let w1 := r.1
+      let rs := Snep.cliOnTimeout w1.cst
+      go { w1 with cst := .done rs } r.2.2 rest (showRes rs :: res) (tr ++ r.2.1)
+  let (w, res, tr) := go (Net.onLink Snep.init) events ops [] []
+  s!"c2s={hexList w.logC} s2c={hexList w.logS} dl={showDl w.dl} res={",".intercalate res} ev={" ".intercalate tr}"
+
+def runWHo (rwS rwC : Nat) (mode : AckMode) (events : List Char) (cmiu smiu : Nat) (reset : Bool)
+    (reqs : List (Bytes × Bytes)) : String :=
+  let k : Win := { rwS, rwC, mode }
+  let rec go (w : WNet Handover.HC Handover.HS Bytes) (ev : List Char) (reqs : List (Bytes × Bytes)) (res : List String)
+      (tr : List String) : WNet Handover.HC Handover.HS Bytes × List String × List String :=
+    match reqs with
+    | [] => (w, res.reverse, tr)
+    | (m, rsp) :: rest =>
+      let cfg : Handover.HCfg := { smiu, complete := Handover.ndefComplete, handler := fun _ => rsp, reset }
+      let fs := chunks cmiu m
+      let w0 := { w with cst := .collecting [], c2s := { w.c2s with out := w.c2s.out ++ fs }, logC := w.logC ++ fs }
+      let r := runEvents (Handover.proto cfg) k ev w0 []
+      let w1 := r.1
+      let rs := match w1.cst with | .done x => x | _ => none
+      go { w1 with cst := .idle } r.2.2 rest (showOpt rs :: res) (tr ++ r.2.1)
+  let (w, res, tr) := go (Net.onLink Handover.init) events reqs [] []
+  s!"c2s={hexList w.logC} s2c={hexList w.logS} dl={hexList w.dl} res={",".intercalate res} ev={" ".intercalate tr}"
+
 def handle (line : String) : String :=
   match line.splitOn " " with
   | "snep" :: a :: b :: c :: d :: cl :: ops =>
@@ -101,6 +230,34 @@ def handle (line : String) : String :=
   | ["ndefc", h] => match parseHex h with
     | some d => if Handover.ndefComplete d then "true" else "false"
     | none => "bad-op"
+  | "encmsg" :: recs =>
+    match recs.mapM parseRec with
+    | some rs => toHex (Handover.encMsg rs) ++ (if rs.all (fun r => decide r.wf) then " wf" else " not-wf")
+    | none => "bad-op"
+  | ["rawsrv", a, b, cl, pc, g, t, ms] =>
+    let getr : Option (Nat ⊕ Bytes) :=
+      if g.startsWith "c" then (g.drop 1).toString.toNat?.map Sum.inl else (parseHex (g.drop 1).toString).map Sum.inr
+    match a.toNat?, b.toNat?, pc.toNat?, getr, parseTable t, parseList ms with
+    | some smiu, some maxacc, some putc, some getr, some tbl, some msgs => runRawSrv smiu maxacc (cl == "1") putc getr tbl msgs
+    | _, _, _, _, _, _ => "bad-op"
+  | ["rawcli", a, b, o, h, ms] =>
+    match a.toNat?, b.toNat?, parseHex h, parseList ms with
+    | some cmiu, some cacc, some octets, some script =>
+      runRawCli cmiu cacc (if o == "p" then .put else .get) octets script
+    | _, _, _, _ => "bad-op"
+  | ["horaw", a, r, rsp, t, ms] =>
+    match a.toNat?, parseHTable rsp, parseTable t, parseList ms with
+    | some smiu, some rsp, some tbl, some msgs => runHoRaw smiu (r == "1") rsp tbl msgs
+    | _, _, _, _ => "bad-op"
+  | "wsnep" :: rs :: rc :: md :: ev :: a :: b :: c :: d :: ops =>
+    match rs.toNat?, rc.toNat?, a.toNat?, b.toNat?, c.toNat?, d.toNat?, ops.mapM parseOp with
+    | some rwS, some rwC, some cmiu, some cacc, some smiu, some maxacc, some ops =>
+      runWSnep rwS rwC (modeOf md) ev.toList cmiu cacc smiu maxacc ops
+    | _, _, _, _, _, _, _ => "bad-op"
+  | "who" :: rs :: rc :: md :: ev :: a :: b :: r :: reqs =>
+    match rs.toNat?, rc.toNat?, a.toNat?, b.toNat?, reqs.mapM parseReq with
+    | some rwS, some rwC, some cmiu, some smiu, some reqs => runWHo rwS rwC (modeOf md) ev.toList cmiu smiu (r == "1") reqs
+    | _, _, _, _, _ => "bad-op"
   | ["chunks", m, h] => match m.toNat?, parseHex h with
     | some miu, some d => hexList (chunks miu d)
     | _, _ => "bad-op"
